@@ -99,7 +99,8 @@ def main():
         res["caught_by"] = [c for c, v in res["checks"].items() if v["caught"]]
     finally:
         sh("git -C /repo worktree remove --force %s" % wt)
-        sh("rm -f /verif/work/xvrun.*")
+        import hashlib
+        sh("rm -f /verif/work/xvrun.%s*" % hashlib.sha1(wt.encode()).hexdigest()[:8])  # only this experiment's harness binary
     print(json.dumps(res, indent=1))
     if a.keep:
         dst = "/verif/seeded/%s-%s" % (a.prop, a.mut)
